@@ -13,13 +13,13 @@ CHECKS = {
   technique="TLA+ spec (Apdu.tla) model-checked with TLC; TLC-emitted table replayed into CApdu.Encode; recorded lines validated against Trace_Apdu"),
  "C16": dict(
   category="model_checking",
-  text="Tlv.tla transcribes X.690 8.1 (identifier, length forms, end-of-contents only inside indefinite contents, exact filling of definite contents) with the library's limits; TLC checks decode(encode(t))=t, idempotence, canonical fixed points and Unwrap/Decode agreement on EVERY byte string up to length 4 (quick) / 5 (thorough) over a 14-octet alphabet containing every behaviour-changing octet, and prints the specified outcome of each string; every row is replayed into the real tlv.Decode/Encode/DecodeEncode/NodeByTagOccur/Unwrap. Grammar-generated and mutated inputs up to several hundred bytes plus inputs at the depth/count limits are recorded from the real decoder and validated against Trace_Tlv.",
+  text="Tlv.tla transcribes X.690 8.1 (identifier, length forms, end-of-contents only inside indefinite contents, exact filling of definite contents) with the library's limits; TLC checks decode(encode(t))=t, idempotence, canonical fixed points and Unwrap/Decode agreement on EVERY byte string up to length 4 (quick) / 5 (thorough) over a 14-octet alphabet containing every behaviour-changing octet, and prints the specified outcome of each string; every row is replayed into the real tlv.Decode/Encode/DecodeEncode/NodeByTagOccur/Unwrap. The re-encoding of EVERY accepted input (also where the specification gives no verdict) must decode again to the same tree. Grammar-generated and mutated inputs up to several hundred bytes plus inputs at the depth/count limits are recorded from the real decoder and validated against Trace_Tlv.",
   design_ref="DESIGN.md §6 C16",
   note="Exhaustive only for short strings over the reduced alphabet; identifier octet 00 outside end-of-contents is a grey zone (no verdict). Trusts TLC and my reading of X.690.",
   technique="TLA+ spec (Tlv.tla) model-checked with TLC; table replay into tlv.Decode; recorded decodes validated against Trace_Tlv"),
  "C18": dict(
   category="model_checking",
-  text="Mrz.tla states the 7-3-1 check digit, the TD1/TD2/TD3 field positions, the extended-document-number rule and the MRZ-information construction; TLC generates valid zones of all three layouts and applies every single-character substitution over a reduced alphabet, every adjacent transposition, deletions and insertions (5k zones quick, 217k thorough), checks consistency of must-reject / well-formed and agreement of the key-seed routes on the specification, and prints the outcome of each zone, which is replayed into mrz.MrzDecode and the three password routes. Full-alphabet random zones and arbitrary strings are recorded from the real code and validated against Trace_Mrz.",
+  text="Mrz.tla states the 7-3-1 check digit, the TD1/TD2/TD3 field positions, the extended-document-number rule and the MRZ-information construction; TLC generates valid zones of all three layouts (short, 9-character, 10-character, extended document numbers, numbers with an interior filler) and applies every single-character substitution over a reduced alphabet, every adjacent transposition, deletions and insertions (5k zones quick, 217k thorough), checks consistency of must-reject / well-formed and agreement of the key-seed routes on the specification, and prints the outcome of each zone, which is replayed into mrz.MrzDecode and the three password routes. Full-alphabet random zones and arbitrary strings are recorded from the real code and validated against Trace_Mrz.",
   design_ref="DESIGN.md §6 C18",
   note="Zones that are neither must-reject nor well-formed (digits in names, unset dates with '<' check digit, characters outside the alphabet) get no verdict.",
   technique="TLA+ spec (Mrz.tla) model-checked with TLC; mutant table replayed into mrz.MrzDecode / password routes; recorded calls validated against Trace_Mrz"),
@@ -38,19 +38,19 @@ CHECKS = {
 
  "C01": dict(
   category="model_checking",
-  text="PassiveAuth.tla states, over atomic facts about a document and a trust store, the declarative predicate Valid (the property's first sentence), the procedure as built (country pool, hash comparison, per-SignerInfo attribute checks, certificate selection incl. the sole-certificate fall-back, DS and CA extension / validity checks, candidates by key identifier, first success) and Genuine; TLC explores every document within K=3 (quick) / 4 (thorough) single-fact flips of four genuine bases (one / two embedded certificates, cross-signed anchors, card security object, two signer infos) and checks Soundness (accepts => Valid) and Completeness in every state - the flips are exactly the modifications the property's last sentence quantifies over. Binding: ~110 issued scenarios per signature profile (genuine variants, 40 forgeries, probes, master lists) and every-byte mutants of genuine EF.SOD / CardSecurity / DG / anchor bytes are run through the real passiveauth.PassiveAuth / cms.CreateCertPoolFromSignedData; for each input the facts are recomputed from the bytes by the independent verifier and the line (facts, real verdict) is validated against Trace_PassiveAuth: acceptance of a document whose facts do not satisfy Valid is a violation.",
+  text="PassiveAuth.tla states, over atomic facts about a document and a trust store, the declarative predicate Valid (the property's first sentence), the procedure as built (country pool, hash comparison, per-SignerInfo attribute checks, certificate selection incl. the sole-certificate fall-back, DS and CA extension / validity checks, candidates by key identifier, first success) and Genuine; TLC explores every document within K=3 (quick) / 4 (thorough) single-fact flips of four genuine bases (one / two embedded certificates, cross-signed anchors, card security object, two signer infos) and checks Soundness (accepts => Valid) and Completeness in every state - the flips are exactly the modifications the property's last sentence quantifies over. Binding: ~110 issued scenarios per signature profile (genuine variants, 40 forgeries, probes, master lists) and every-byte mutants of genuine EF.SOD / CardSecurity / DG / anchor bytes are run through the real passiveauth.PassiveAuth / cms.CreateCertPoolFromSignedData; for each input the facts are recomputed from the bytes by the independent verifier and the line (facts, real verdict) is validated against Trace_PassiveAuth: acceptance of a document whose facts do not satisfy Valid is a violation; for master lists the returned pool must contain only certificates of the SIGNED certList (scenarios incl. an unsigned CA spliced into SignedData.certificates and a forged list under an embedded self-signed CA with the trusted root's name); the card security object is judged at its OWN signing time.",
   design_ref="DESIGN.md §6 C01",
   note="Facts (signature verifies under key, digests, validity, extensions) come from harness/pki on Go's math/big and hash functions; name chaining and signer EKU are outside the property statement; probes (verdict not fixed by the standard, e.g. the ECDSA curve fall-back) are informational.",
   technique="TLA+ spec (PassiveAuth.tla) model-checked with TLC over fact flips; issued forgeries and byte mutants run through the real code, facts recomputed independently and validated against Trace_PassiveAuth"),
  "C09": dict(
   category="model_checking",
-  text="Same specification as C01, completeness direction: TLC checks Genuine => accepts over the fact space; the issuing PKI generates correctly issued documents over the key-spec matrix (14 covering specs quick, all 149 thorough: RSA PKCS#1 / PSS x sizes x SHA-1..512, ECDSA over P-192..P-521 and brainpool r1 curves, named and explicit) crossed with the validity-irrelevant variants (SID form, LDS v0/v1, indefinite lengths, signing time absent / at the validity limits, extra embedded certificates, cross-signed anchors in both orders, RDN order, string types, card security object) and the genuine scenarios (encodings, master lists); each is run through the real PassiveAuth, facts recomputed independently, the line validated against Trace_PassiveAuth (Genuine and rejected = violation).",
+  text="Same specification as C01, completeness direction: TLC checks Genuine => accepts over the fact space; the issuing PKI generates correctly issued documents over the key-spec matrix (14 covering specs quick, all 149 thorough: RSA PKCS#1 / PSS x sizes x SHA-1..512, ECDSA over P-192..P-521 and brainpool r1 curves, named and explicit) crossed with the validity-irrelevant variants (SID form, LDS v0/v1, indefinite lengths, signing time absent / at the validity limits, extra embedded certificates, cross-signed anchors in both orders, RDN order, string types, SID issuer in another attribute order than the certificate's, repeated attribute types, an expired earlier certificate of the same CSCA key before / after the valid one, card security object incl. one signed by a DS valid only at its own signing time) and the genuine scenarios (encodings, master lists); each is run through the real PassiveAuth, facts recomputed independently, the line validated against Trace_PassiveAuth (Genuine and rejected = violation).",
   design_ref="DESIGN.md §6 C09",
   note="The crypto matrix is executed, not modelled; known finding: eContent as constructed OCTET STRING.",
   technique="TLA+ spec (PassiveAuth.tla, Genuine/Completeness) + issued documents over the profile matrix run through the real code and validated against Trace_PassiveAuth"),
  "C03": dict(
   category="model_checking",
-  text="SM.tla models terminal (one action per step of DoAPDU / Decode, check by check), chip (9303-11 9.8) and a Dolev-Yao link adversary with labelled moves (alter / withhold command; short, garbage, unprotected, replay of any seen response, cross-session, outer status, DO value, both statuses, delete / duplicate / re-order / extra / forged data objects); TLC checks Authentic, Lockstep, HonestDelivers exhaustively for the intended design (no counter roll-back; 61k states, modulus 16, 3 exchanges, wrap inside the run) and must find the roll-back/replay counterexample for the as-built switch. Every behaviour of the as-built model with <= 2 adversary moves (8.8k quick, 3 exchanges thorough) is replayed byte for byte into the real NfcSession.DoAPDU against the chip simulator for 3DES / AES-128/192/256 and initial counters incl. FF..FD: delivered data / status are compared with what the chip produced for that very command, outcome and counter with the model; plus a single-bit sweep over genuine responses of every shape.",
+  text="SM.tla models terminal (one action per step of DoAPDU / Decode, check by check), chip (9303-11 9.8) and a Dolev-Yao link adversary with labelled moves (alter / withhold command; short, garbage, unprotected, replay of any seen response, cross-session, outer status, DO value, both statuses, delete / duplicate / re-order / extra data objects, forged DO'87' / DO'85' carrying junk or the cryptogram of an earlier response, in front of the genuine objects or behind DO'8E'); TLC checks Authentic, Lockstep, HonestDelivers exhaustively for the intended design (no counter roll-back; 61k states, modulus 16, 3 exchanges, wrap inside the run) and must find the roll-back/replay counterexample for the as-built switch. Every behaviour of the as-built model with <= 2 adversary moves (8.8k quick, 3 exchanges thorough) is replayed byte for byte into the real NfcSession.DoAPDU against the chip simulator for 3DES / AES-128/192/256 and initial counters incl. carries across every octet boundary and FF..FD: delivered data / status are compared with what the chip produced for that very command, outcome and counter with the model; plus a single-bit sweep over genuine responses of every shape.",
   design_ref="DESIGN.md §6 C03",
   note="Symbolic MAC/encryption in the model; chip side is harness/chipsim; known finding: replay accepted after an unprotected response (deliberate counter roll-back).",
   technique="TLA+ spec (SM.tla) model-checked with TLC; TLC-enumerated adversary behaviours replayed into NfcSession.DoAPDU against an independent chip; bit-flip sweep"),
@@ -62,13 +62,13 @@ CHECKS = {
   technique="TLA+ specs (SM.tla, SMCmd.tla, Apdu.tla) with TLC; specified command structures replayed into DoAPDU against an independent chip; inductive invariant (Lockstep.tla) with Apalache in the thorough tier"),
  "C05": dict(
   category="model_checking",
-  text="Bac.tla models the mutual authentication symbolically with the answer to EXTERNAL AUTHENTICATE coming from the chip, a replay of an earlier run, a forgery under another document's keys, a mutated cryptogram, a key holder not echoing RND.IFD / RND.IC, wrong lengths or an error status, for equal and different terminal / chip MRZs; TLC checks Completeness, Soundness, FailClosed on all 36 scenarios; each is executed (12 / 200 repetitions with fresh randoms) with the real bac.DoBAC against the chip simulator, edge terminal randoms through the randomness hook, and every well-formed zone of Mrz.tla (all layouts, short / extended numbers) plus generated zones is opened with the chip personalised from the SPECIFICATION's MRZ information.",
+  text="Bac.tla models the mutual authentication symbolically with the answer to EXTERNAL AUTHENTICATE coming from the chip, a replay of an earlier run, a forgery under another document's keys, a mutated cryptogram, a key holder not echoing RND.IFD / RND.IC, wrong lengths or an error status, for equal and different terminal / chip MRZs; TLC checks Completeness, Soundness, FailClosed on all 36 scenarios; each is executed (12 / 200 repetitions with fresh randoms) with the real bac.DoBAC against the chip simulator, edge terminal randoms through the randomness hook, 'mutated' = one bit, the same bit in two octets, two octets exchanged, two bits of one octet; and every well-formed zone of Mrz.tla (all layouts, short / extended numbers) plus generated zones is opened with the chip personalised from the SPECIFICATION's MRZ information.",
   design_ref="DESIGN.md §6 C05",
   note="Symbolic 3DES/MAC in the model; key derivation oracle is chipsim (checked against 9303-11 Appendix D).",
   technique="TLA+ spec (Bac.tla, Mrz.tla) with TLC; scenarios replayed into bac.DoBAC against an independent chip"),
  "C04": dict(
   category="model_checking",
-  text="Pace.tla models PACE-GM / -CAM with symbolic Diffie-Hellman and 15 deviations (other password, altered nonce / mapping key / agreement key / token / chip authentication data, echoed keys, error status at each step, foreign static key); TLC checks Completeness, FailClosed, CamGated, Agreement, StatusFails and the selection rule over all subsets of advertised infos. Binding: real pace.DoPACE against the chip simulator over parameter ids 8..18 x GM 3DES/AES-128/192/256 and CAM AES x MRZ / CAN passwords, shared secrets with a leading zero octet FORCED by the chip choosing its scalar after seeing the terminal's key, every deviation in several concrete forms (other valid point, bit flip, truncation, empty, 00), and CardAccess files advertising supported entries among DH / IM / unknown ones.",
+  text="Pace.tla models PACE-GM / -CAM with symbolic Diffie-Hellman and 17 deviations (other password, altered nonce / mapping key / agreement key / token / chip authentication data, chip authentication data left out, echoed keys, a password-less counterpart reflecting the terminal's agreement key AND token, error status at each step, foreign static key); the design without the comparison of the two agreement keys must yield the reflection counterexample; TLC checks Completeness, FailClosed, CamGated, Agreement, StatusFails and the selection rule over all subsets of advertised infos. Binding: real pace.DoPACE against the chip simulator over parameter ids 8..18 x GM 3DES/AES-128/192/256 and CAM AES x MRZ / CAN passwords, shared secrets with a leading zero octet FORCED by the chip choosing its scalar after seeing the terminal's key, every deviation in several concrete forms (other valid point, bit flip, truncation, empty, 00), and CardAccess files advertising supported entries among DH / IM / unknown ones in three entry orders (the file is a SET).",
   design_ref="DESIGN.md §6 C04",
   note="Chip side is harness/chipsim (checked against 9303-11 Appendix G); a PACEInfo with a supported OID but RFU parameter id is outside the selection clause.",
   technique="TLA+ spec (Pace.tla) with TLC; scenario x concrete matrix replayed into pace.DoPACE against an independent chip with forced edge slices"),
@@ -80,20 +80,20 @@ CHECKS = {
   technique="TLA+ spec (ChipAuth.tla) with TLC; strategies x concrete matrix replayed into chipauth.DoChipAuth against an independent chip"),
  "C07": dict(
   category="model_checking",
-  text="ActiveAuth.tla models the challenge plumbing (caller-supplied or generated challenge -> wire -> evidence -> offline verification with none / same / different challenge) and response classes; TLC checks Plumbing, Exact, HardFail, Reproduces on all 24 scenarios; binding: real DoActiveAuth / ValidateActiveAuthSignature / Verifier.Verify against the chip simulator's independent ISO 9796-2 signer (moduli 1024..4096 incl. 1029 / 1031 bits, all five trailers) and ECDSA signer (11 curves, plain and DER), with genuine, replayed, impostor and mutated responses (bit flip, truncation, zero, empty, s+n, wrong trailer); validity of the bytes the library saw is decided by the harness' own verifier.",
+  text="ActiveAuth.tla models the challenge plumbing (caller-supplied or generated challenge -> wire -> evidence -> offline verification with none / same / different challenge) and response classes; TLC checks Plumbing, Exact, HardFail, Reproduces on all 24 scenarios; binding: real DoActiveAuth / ValidateActiveAuthSignature / Verifier.Verify against the chip simulator's independent ISO 9796-2 signer (moduli 1024..4096 incl. 1029 / 1031 bits, all five trailers) and ECDSA signer (11 curves, plain and DER), with genuine, replayed, impostor and mutated responses (bit flip, truncation, zero, empty, s+n, wrong trailer), and ground genuine plain r||s signatures that start like a DER header (30 3E); validity of the bytes the library saw is decided by the harness' own verifier.",
   design_ref="DESIGN.md §6 C07",
   note="The substance (is this byte string a valid signature) is decided by a second implementation, the TLA+ part organises scenarios and the plumbing rule; value-preserving re-encodings get no verdict.",
   technique="TLA+ spec (ActiveAuth.tla) with TLC; scenarios replayed into the real AA code with an independent signature oracle"),
 
  "C08": dict(
   category="model_checking",
-  text="Session.tla composes the 13 pipeline steps of reader.ReadDocument over a chip configuration record (access arrangement bac / pace / pace+bac / cam / cam+bac, data-group subsets, AA none/rsa/ecdsa, CA, issuer trusted, chip kind) and reader options (skip PACE, skip images, MRZ / CAN): TLC checks the C08 clauses (every listed and stored data group obtained, each supported mechanism successful, PA iff issuer trusted) and the C02 end-to-end clauses on all 7808 (configuration, options) pairs and prints the expected outcome of each. Binding: for the genuine configurations (a sixth in quick, all x3 in thorough) a passport is personalised with random concrete variety (PACE / CA curves and suites, AA key types, CSCA/DS signature profiles, DG13 sizes at length boundaries, chip response caps, Le limits, extended length on/off, read sizes 100..65536) and read with the real Reader.ReadDocument against the chip simulator; every file is compared byte for byte with the chip's, every step outcome, verdict and the set of data groups with the model's expectation, and every success with the chip's own completion record.",
+  text="Session.tla composes the 13 pipeline steps of reader.ReadDocument over a chip configuration record (access arrangement bac / pace / pace+bac / cam / cam+bac, data-group subsets, AA none/rsa/ecdsa, CA, issuer trusted, chip kind) and reader options (skip PACE, skip images, MRZ / CAN): TLC checks the C08 clauses (every listed and stored data group obtained, each supported mechanism successful, PA iff issuer trusted) and the C02 end-to-end clauses on all 7808 (configuration, options) pairs and prints the expected outcome of each. Binding: for the genuine configurations (a sixth in quick, all x3 in thorough) a passport is personalised with random concrete variety (PACE / CA curves and suites, AA key types, CSCA/DS signature profiles, hash-list order of EF.SOD, DG13 sizes at length boundaries up to 30000 and with a longer-than-shortest outer length, chip response caps, Le limits, extended length on/off, read sizes 100..65536) and read with the real Reader.ReadDocument against the chip simulator; every file is compared byte for byte with the chip's, every step outcome, verdict, the set of data groups and the ReaderStatus phase sequence with the model's expectation, and every success with the chip's own completion record. Beyond the listed clauses, the chip-side command record of every read is validated against Wire.tla (the command language of a read: which command may follow which answer) by Trace_Wire; divergences are reported as notes and counted.",
   design_ref="DESIGN.md §6 C08",
   note="Premise of the success clause stated in the evidence file (read size within what the chip's length format supports, first read returns the complete TLV header).",
   technique="TLA+ spec (Session.tla) with TLC; expected outcome per configuration replayed into Reader.ReadDocument against an independent chip and issuing PKI"),
  "C11": dict(
   category="fault_enumeration",
-  text="Session.tla names, per pipeline step, how a failing exchange may continue (tolerate / record / abort / retry); TLC checks that every active step of every configuration has a defined continuation. Binding (exhaustive fault enumeration): for 2 (quick) / 6 (thorough) chip configurations one fault-free real read fixes the exchange count N; then for EVERY exchange index k < N and EVERY fault kind (empty, one byte, truncated, garbled, oversized, error status, unprotected 9000) one real ReadDocument is run with the fault injected on the link, plus seeded 2-4-fault scripts; each result is judged against the chip's ground truth: no panic, returns within 60 s, every returned file byte-identical to the chip's, no authentication step reported successful that the chip did not complete, DataTrusted only with passing PA and completeness over genuine files.",
+  text="Session.tla names, per pipeline step, how a failing exchange may continue (tolerate / record / abort / retry), what each continuation may produce, and NoSilentLoss (no error and no changed step outcome => no file lost); TLC checks that every active step of every configuration has a defined continuation and that every continuation satisfies NoSilentLoss. Binding (exhaustive fault enumeration): for 3 (quick) / 7 (thorough) chip configurations one fault-free real read fixes the exchange count N; then for EVERY exchange index k < N and EVERY fault kind (empty, one byte, truncated, garbled, oversized, random error status, unprotected 9000, bare 6A82, bare 6283) one real ReadDocument is run with the fault injected on the link, plus seeded 2-4-fault scripts; each result is judged against the chip's ground truth: no panic, returns within 60 s, every returned file byte-identical to the chip's, no authentication step reported successful that the chip did not complete, DataTrusted only with passing PA and completeness over genuine files, and a data group missing from a read that returned no error is a swallowed fault.",
   design_ref="DESIGN.md §6 C11",
   note="'never loops' is bounded observation (60 s per read); payload changes under an unchanged 9000 on unprotected exchanges are undetectable and not asserted.",
   technique="TLA+ spec (Session.tla) continuation table + exhaustive single-fault enumeration over every exchange of real reads against an independent chip"),
@@ -105,7 +105,7 @@ CHECKS = {
   technique="TLA+ spec (Evidence.tla) checked with TLC: every single-field replacement must fail; fields named by the spec tampered in real exports and verified with the real Verifier against live sessions with an independent chip"),
  "C15": dict(
   category="model_checking",
-  text="Envelope.tla models the three nested CBOR envelopes (magic, version, SHA-256, payload) with Import's checks in code order and Corrupt over 9 component classes x 3 levels; TLC checks RoundTrip for every subset of file kinds / evidence kinds, Detects (after one corruption the import is Reject or identical) and ForeignOrNewer, and prints the expected outcome of each (level, component) pair. Binding: documents from live sessions (all mechanisms), their no-evidence and fewer-files variants and the empty document are exported with the real ToCbor; EVERY byte position x substitution set, every truncation length and extensions are imported with the real UnmarshalVerifiableDoc / NewDocumentFromCbor; an independent minimal CBOR walker classifies each position into the specification's (level, component) class and the real outcome must be the specified one: error, or files + evidence + parsed view identical to the original.",
+  text="Envelope.tla models the three nested CBOR envelopes (magic, version, SHA-256, payload) with Import's checks in code order and Corrupt over 9 component classes x 3 levels; TLC checks RoundTrip for every subset of file kinds / evidence kinds, Detects (after one corruption the import is Reject or identical) and ForeignOrNewer, and prints the expected outcome of each (level, component) pair. Binding: documents from live sessions (all mechanisms), their no-evidence and fewer-files variants and the empty document are exported with the real ToCbor; EVERY byte position x substitution set, every truncation length and extensions are imported with the real UnmarshalVerifiableDoc / NewDocumentFromCbor; an independent minimal CBOR walker classifies each position into the specification's (level, component) class and the real outcome must be the specified one: error, or files + evidence + parsed view identical to the original; all documents are exported before any blob is imported (exports must not share state).",
   design_ref="DESIGN.md §6 C15",
   note="The third-party CBOR decoder is abstracted as well-formed-or-not; only the outer version-down is accepted with unchanged content.",
   technique="TLA+ spec (Envelope.tla) model-checked with TLC; expected outcome per (level, component) class replayed over every byte position of real exports"),
